@@ -251,8 +251,11 @@ func genCase(r *lib.RNG, wide bool) *Case {
 				i := r.Intn(k - 1)
 				j := i + 1 + r.Intn(k-1-i)
 				def, _ := g.regex(lib.Pick(r, []int{0, 0, 1}), false)
+				opt := ""
 				if r.Chance(1, 4) {
 					def = "(?:" + def + ")?" // a group that may not take part in the match
+				} else if nvars%3 == 0 {
+					opt = "?" // the NAMED group itself may not take part (its variable is then empty); no draw: the other cases stay as they were
 				}
 				pre, post := "", ""
 				if r.Chance(1, 2) {
@@ -261,7 +264,7 @@ func genCase(r *lib.RNG, wide bool) *Case {
 				if r.Chance(1, 2) {
 					post, _ = g.regex(0, false)
 				}
-				kids[i] = &slib.Node{Op: "term", Key: kids[i].Key, Conv: conv, Regex: pre + "(?P<" + name + ">" + def + ")" + post}
+				kids[i] = &slib.Node{Op: "term", Key: kids[i].Key, Conv: conv, Regex: pre + "(?P<" + name + ">" + def + ")" + opt + post}
 				use := "@" + name + "@"
 				if r.Chance(1, 2) {
 					use = g.lit() + use
